@@ -526,7 +526,9 @@ class RectGrid(Set):
     def __hash__(self):
         """Return ``hash(self)``."""
         # TODO: update with #841
-        coord_vec_str = tuple(cv.tobytes() for cv in self.coord_vectors)
+        # Adding 0.0 maps -0.0 to 0.0, which `__eq__` considers equal
+        coord_vec_str = tuple((cv + 0.0).tobytes()
+                              for cv in self.coord_vectors)
         return hash((type(self), coord_vec_str))
 
     def approx_contains(self, other, atol):
